@@ -9,6 +9,7 @@ require github.com/deadsy/sdfx v0.0.0
 require (
 	golang.org/x/mod v0.22.0 // indirect
 	golang.org/x/sync v0.10.0 // indirect
+	gonum.org/v1/gonum v0.15.1 // indirect
 )
 
 require (
